@@ -130,6 +130,10 @@ class AwaitCtl:
             b = dict(self.bindings)
             b["fx"] = list(ctx.fx)
             ctx.check_obligation(f"{qn}::await.{cid}", eval_clause(I, lam, _sel(lam, b), old_view=I.entry_old_view))
+        from .snapshot import snapshot as _snapshot
+
+        drain_callbacks(I)
+        pre_view = _snapshot([so]) if so is not None else None
         havoc_interference(I, spec, so, self.bindings)
         if spec is not None and so is not None:
             from .snapshot import clone_graph
@@ -141,7 +145,7 @@ class AwaitCtl:
             for rid, lam in getattr(spec, "rely", []) or []:
                 from .contracts import eval_clause
 
-                ctx.assume(_z(eval_clause(I, lam, {"self": so})))
+                ctx.assume(_z(eval_clause(I, lam, {"self": so}, old_view=pre_view)))
         from .modular import _observe
 
         _observe(I, "resume")
@@ -306,6 +310,21 @@ def evolve_future(I, f):
         f.exc = SObj(Exception, {"args": ()}, tag="unknown-exception")
 
 
+def drain_callbacks(I):
+    """Done-callbacks of futures that are done run on the next loop iteration: before anything else
+    happens at a suspension, and right after the coroutine finishes."""
+    for f in list(values.LIVE_FUTURES):
+        if not f.callbacks or f.ghost.get("callbacks_ran"):
+            continue
+        s = z3.simplify(f.state)
+        done = (s.as_long() != 0) if z3.is_int_value(s) else I.ctx.branch(f.state != 0)
+        if not done:
+            continue
+        f.ghost["callbacks_ran"] = True
+        for cb in list(f.callbacks):
+            I.call(cb, [f], {})
+
+
 def havoc_interference(I, spec, so, bindings):
     ctx = I.ctx
     seen = set()
@@ -318,6 +337,18 @@ def havoc_interference(I, spec, so, bindings):
             if ty is None:
                 raise Unsupported(f"interference names unknown field {fld}")
             cur = so.fields.get(fld)
+            if fld in (getattr(spec, "identity_fields", None) or ()):
+                # a reference whose identity matters: unchanged (the object itself may have evolved),
+                # cleared, or replaced by another object -- each explored
+                k = ctx.choose(3, f"{fld}: same/None/other")
+                if k == 0:
+                    continue
+                if k == 1:
+                    so.fields[fld] = None
+                    continue
+                inner = getattr(ty, "inner", ty)
+                so.fields[fld] = inner.fresh(I, f"self.{fld}~")
+                continue
             new = ty.fresh(I, f"self.{fld}~")
             if type(cur).__name__ in ("SMap", "SColl") and type(new) is type(cur):
                 oid = cur.oid
@@ -385,6 +416,8 @@ def guarantee_obligations(spec, registry, owners=()):
             if proved:
                 continue
             for c in calls:
+                if c in owners:
+                    continue  # the callee acquires the exclusive permission itself
                 if c in frames and not frames[c][0] <= fr:
                     fr |= frames[c][0]
                     changed = True
